@@ -422,11 +422,12 @@ def candidate_spellings(P):
                 if v and v.isidentifier() and v.isascii() and v not in kws:
                     kws.append(v)
     kws = ([kws[0], kws[-1]] if len(kws) > 1 else kws) or ['int', 'sizeof']
-    words = ['x', 'x1', '_', '$', 'é', '中', 'L', 'u', 'U', 'u8']
+    words = ['x', 'x1', '_', '$', 'é', '中', '\U0001d465', 'L', 'u', 'U', 'u8']
     nums = ['1', '0x7E', '0x7e', '1.', '.5', '1u', '1e5', '0x1p3']
     quoted = ["'c'", '"s"', "L'c'", 'L"s"', 'u8"s"']
-    return {'punct': [p.encode() for p in puncts], 'word': [w.encode('utf-8') for w in words], 'keyword': [k.encode() for k in kws],
-            'number': [n.encode() for n in nums], 'quoted': [q.encode() for q in quoted]}
+    # (insertion order matters: `_` and `$` are words for this tokenizer, not punctuators)
+    return {'word': [w.encode('utf-8') for w in words], 'keyword': [k.encode() for k in kws], 'number': [n.encode() for n in nums],
+            'quoted': [q.encode() for q in quoted], 'punct': [p.encode() for p in puncts]}
 
 
 def converted_at_printer(P):
@@ -474,7 +475,8 @@ class Printer:
 
         def mk(ctx):
             x = tok('first', E['TK_PUNCT'], b';', at_bol=1)
-            A = tok('prev', kind_a, a, has_space=1)
+            A = tok('prev', kind_a, a)
+            del A.fields['at_bol'], A.fields['has_space']       # how A itself was separated from `;` says nothing about A|B: unconstrained
             B = tok('tok', b_kind, b)
             e = Obj('Token', lazy=True, label='eof', fields={'kind': E['TK_EOF'], 'loc': cbuf(b'', 'eof'), 'len': 0, 'at_bol': 1, 'has_space': 0, 'next': 0})
             x.fields['next'] = A; A.fields['next'] = B; B.fields['next'] = e
@@ -604,7 +606,10 @@ def _work(P, lx, pr, group, kind, kinds_at_printer, prevs, nxts):
                         out.append((a, b, 'undecided', bad[0][2], ka))
                         continue
                     miss = [x for x in d if x[0] is False]
-                    if miss:
+                    if miss and len(miss) < len(d) and all(x[2] for x in miss):
+                        # separated on some paths, glued on others, and the glued ones asked about fields that say nothing about spellings
+                        out.append((a, b, 'depends', (how, miss[0][1][-6:], sorted(set(f for x in miss for f in x[2])), len(miss), len(d)), ka))
+                    elif miss:
                         out.append((a, b, 'glued', (how, miss[0][1][-6:], miss[0][2], len(miss), len(d)), ka))
                     else:
                         out.append((a, b, 'separated', (how, len(d)), ka))
